@@ -286,17 +286,18 @@ def replay_pca(cex):
     grp = np.array([0, 1, 1, 0, 1, 0, 0, 1])
     imgs = np.stack([base * (1 if g else -1) * 5 + rng.normal(size=shape) * 0.05 for g in grp]).astype(np.float32)
     mask = (rng.uniform(size=shape) > 0.3).astype(np.float32)
-    for m in (None, mask):
+    soft = rng.uniform(0.05, 1.0, size=shape).astype(np.float32)  # a soft mask: 0 < m < 1 almost everywhere
+    for m in (None, mask, soft):
         clf = PcaClassifier(imgs, m, n_components=2, n_clusters=2, seed=0).run()
         lab = np.asarray(clf.labels)
         if len(lab) != n or len(set(lab[grp == 0])) != 1 or len(set(lab[grp == 1])) != 1 or lab[0] == lab[1]:
-            bad[f"classifier labels (mask={'yes' if m is not None else 'no'})"] = lab.tolist()
+            bad[f"classifier labels (mask={'no' if m is None else 'binary' if m is mask else 'soft'})"] = lab.tolist()
         flat = (imgs * (1 if m is None else m)).reshape(n, -1).astype(np.float64)
         fc = flat - flat.mean(axis=0)
         U, S, Vt = np.linalg.svd(fc, full_matrices=False)
         T = np.asarray(clf.get_transform())
         if T.shape != (n, 2) or not np.allclose(np.abs(T), np.abs(U[:, :2] * S[:2]), atol=1e-3):
-            bad[f"classifier projections (mask={'yes' if m is not None else 'no'})"] = True
+            bad[f"classifier projections (mask={'no' if m is None else 'binary' if m is mask else 'soft'})"] = True
         parts = clf.split_clusters()
         for c, part in enumerate(parts):
             got = np.asarray(part)
